@@ -31,7 +31,7 @@ def product_fns(prog):
 
 
 def declare(rep):
-    rep.rule("C10.ref-after-grow", "a reference/pointer/iterator bound into a std::vector member is not used after a call that may grow that vector of that object (per (binding, growing call) pair)", floor=60)
+    rep.rule("C10.ref-after-grow", "a reference/pointer/iterator bound into a std::vector member is not used after a call that may grow that vector of that object (per (binding, growing call) pair)", floor=45)
     rep.rule("C10.grow-while-iterating", "no range-for over a std::vector whose body may grow that vector", floor=40)
     rep.rule("C10.shared-resize", "a container resized inside an OpenMP parallel region is only accessed under the same critical section in that region", floor=8)
     rep.rule("C10.virtual-dtor", "a class that takes ownership of a derived object through unique_ptr<Base>/delete Base* has a virtual destructor", floor=3)
